@@ -706,6 +706,10 @@ pub struct State {
     pub cancel_hid: AtomicUsize,
     /// 0 = not fired, 1 = fired outside of fixpoint/fallback frames, 2 = fired below such a frame
     pub cancel_fired: AtomicUsize,
+    /// index (in its plan) of the request the victim handle is making right now, and the index at
+    /// which the self-cancel fired (usize::MAX = not fired)
+    pub victim_req: AtomicUsize,
+    pub cancel_fired_req: AtomicUsize,
     /// node index + 1 at whose entry handle `gate_hid` reports `gate_reached` and waits for
     /// `gate_open` (at most ~5 s); 0 = none
     pub gate_node: AtomicUsize,
@@ -822,6 +826,8 @@ impl Db {
             cancel_node: AtomicUsize::new(0),
             cancel_hid: AtomicUsize::new(usize::MAX),
             cancel_fired: AtomicUsize::new(0),
+            victim_req: AtomicUsize::new(0),
+            cancel_fired_req: AtomicUsize::new(usize::MAX),
             gate_node: AtomicUsize::new(0),
             gate_hid: AtomicUsize::new(usize::MAX),
             gate_reached: AtomicBool::new(false),
@@ -912,6 +918,8 @@ fn body(db: &dyn PDb, key: Key) -> u8 {
             .any(|&f| st.prog.nodes[f].kind.disables_local_cancellation());
         st.cancel_fired
             .store(if below_cycle_frame { 2 } else { 1 }, Ordering::SeqCst);
+        st.cancel_fired_req
+            .store(st.victim_req.load(Ordering::SeqCst), Ordering::SeqCst);
         trace::note(&format!("self-cancel node {n} handle {}", db.hid()));
         db.cancellation_token().cancel();
     }
